@@ -33,6 +33,8 @@ done
 for d in seeded/*/; do
   name=$(basename "$d"); [ -f "$d/meta.json" ] || continue
   prop=$(python3 -c "import json;print(json.load(open('$d/meta.json'))['property'])")
+  # a seed that no check catches is kept, with the reason, as a recorded miss: it is not a canary (DESIGN 9.15)
+  if [ -f "$d/MISSED.md" ]; then { [ -z "$WANT" ] || [ "$WANT" = "$prop" ]; } && echo "CANARY seed:$name ($prop): RECORDED MISS (no check catches it; see $d""MISSED.md)"; continue; fi
   run_one "seed:$name" "$prop" "$(pwd)/$d/patch.diff"
 done
 echo "canaries run: $n"
